@@ -309,3 +309,12 @@ Proof.
   destruct (jpeg_lossless_diffCategory_loop1 64 (Z.abs v) 0) as [[v' c]|] eqn:E; [|discriminate].
   inversion H; subst r. apply bitlen_agree in E. exact E.
 Qed.
+
+(* ---------- jpeg2000/colorspace/rct.go (int32 arithmetic: every +, -, * wrapped as Go does) ---------- *)
+Require V.J2K.RCT.
+
+Lemma tie_RCTForward : forall r g b, jpeg2000_colorspace_RCTForward r g b = V.J2K.RCT.rct_fwd32 r g b.
+Proof. reflexivity. Qed.
+
+Lemma tie_RCTInverse : forall y cb cr, jpeg2000_colorspace_RCTInverse y cb cr = V.J2K.RCT.rct_inv32 y cb cr.
+Proof. reflexivity. Qed.
